@@ -1445,19 +1445,27 @@ class Engine:
     def apply_block(self, blk, env, node, stmts):
         self.line = getattr(node, 'lineno', self.line)
         self.blocks_used.add(blk.name)
-        for k, r in enumerate(blk.requires):
-            self.oblige(self._b(self.spec_truth(r, env)), 'block-pre:%s:%d' % (blk.name, k))
-        # the state at the beginning of the block: what old() means in its clauses
+        # the state at the beginning of the block: what old() means in its clauses (in its precondition too)
         fenv = env
         while fenv.parent is not None and '__locals__' not in fenv.vars:
             fenv = fenv.parent
         snap = {k: self.snapshot(v) for k, v in fenv.vars.items() if not k.startswith('__')}
         snap.update({k: self.snapshot(v) for k, v in self.heap.items()})
         old_env = Env(self.spec_fallback, snap)
+        saved = self.cur_old_env
+        self.cur_old_env = old_env
+        try:
+            for k, r in enumerate(blk.requires):
+                self.oblige(self._b(self.spec_truth(r, Env(env, {'__old_env__': old_env}))), 'block-pre:%s:%d' % (blk.name, k))
+        finally:
+            self.cur_old_env = saved
         for name, ty in sorted(blk.assigns.items()):
             if name in self.heap:
                 continue
-            env.vars[name] = self.havoc_value(env.vars.get(name), ty, name)
+            if callable(ty) and not isinstance(ty, Ty):
+                env.vars[name] = ty(env)          # an object-valued local (e.g. a new abstract object the block creates): given by the contract
+            else:
+                env.vars[name] = self.havoc_value(env.vars.get(name), ty, name)
         for name in sorted(assigned_names(stmts) - set(blk.assigns)):
             if not name.startswith('g_'):
                 env.vars[name] = _Forgotten(blk.name)
@@ -1471,6 +1479,7 @@ class Engine:
         sub = Env(env, {'__old_env__': old_env})
         saved = self.cur_old_env
         self.cur_old_env = old_env
+        before = self.check_light(None) if which == 'normal' else None
         try:
             if which == 'normal':
                 for e in blk.ensures:
@@ -1480,6 +1489,9 @@ class Engine:
                     self.assume(self._b(self.spec_truth(c, sub)))
         finally:
             self.cur_old_env = saved
+        if which == 'normal' and before != z3.unsat and self.check_light(None) == z3.unsat:
+            # the assumed postcondition contradicts what is known at this place: everything after it would hold vacuously
+            raise EngineError('the postcondition of block contract %r contradicts the state at its place' % blk.name)
         self.feasible()
         if which != 'normal':
             raise PyExc(which[6:], (), self.line)
